@@ -306,6 +306,8 @@ def step (w : World) (ws : List String) : World × List String :=
          | none => (w, ["R -1"]))
   | ["D", c] => withCtx c fun _ x => (w, dumpCfg 0 x.cfg ++ ["."])
   | ["PR", c] => withCtx c fun _ x => (w, ["B " ++ hexOfBytes (cfgPrint x.cfg)])
+  | ["PP", a, b] => withCtx a fun _ xa => withCtx b fun cb xb =>
+      emitParse w cb xb (parseBuf orc (mkPEnv w xb.dirs) xb.cfg (cfgPrint xa.cfg) w.k)
   | ["PO", c, p] => withCtx c fun _ x =>
       (match (getoptPath x.cfg (bytesOfHex p)).ref.bind x.cfg.getOpt with
        | some o => (w, ["B " ++ hexOfBytes (optPrint o)])
